@@ -47,9 +47,12 @@ pub enum Variant {
     /// the `lin` body with early `return` statements, and the closure called 4.5 million times at shallow depth (state that
     /// an expansion keeps across calls - counters, guards - is exercised by volume, not by depth); sub-grid like `deep`
     Churn,
+    /// the return type is a reference borrowed from the (single, shared) capture: `|s0: &Vec<u64>| {|a0: u64| -> &u64 {..}}`;
+    /// the hand-written fn gets the same signature by lifetime elision
+    RetRef,
 }
 
-pub const ALL_VARIANTS: [Variant; 8] = [Variant::Lin, Variant::Two, Variant::Types, Variant::Mix, Variant::Refs, Variant::Names, Variant::Deep, Variant::Churn];
+pub const ALL_VARIANTS: [Variant; 9] = [Variant::Lin, Variant::Two, Variant::Types, Variant::Mix, Variant::Refs, Variant::Names, Variant::Deep, Variant::Churn, Variant::RetRef];
 pub const CHURN_CALLS: u64 = 4_500_000;
 pub const DEEP_DEPTH: u64 = 1_300_000;
 
@@ -64,6 +67,7 @@ impl Variant {
             Variant::Names => "names",
             Variant::Deep => "deep",
             Variant::Churn => "churn",
+            Variant::RetRef => "retref",
         }
     }
     pub fn parse(s: &str) -> Option<Variant> {
@@ -95,9 +99,11 @@ enum Ty {
     CellU64,
     /// reference-counted, single-threaded
     RcVec,
+    /// a capture type with a lifetime hidden inside (`&Vec<&str>`: legal in a fn signature by elision)
+    VecStrRef,
 }
 
-const TY_ROT: [Ty; 9] = [Ty::Pair, Ty::Slice, Ty::CellU64, Ty::Str, Ty::Arr3, Ty::StrSlice, Ty::VecU64, Ty::RcVec, Ty::U64];
+const TY_ROT: [Ty; 10] = [Ty::Pair, Ty::Slice, Ty::CellU64, Ty::Str, Ty::VecStrRef, Ty::Arr3, Ty::StrSlice, Ty::VecU64, Ty::RcVec, Ty::U64];
 
 impl Ty {
     fn name(self) -> &'static str {
@@ -111,6 +117,7 @@ impl Ty {
             Ty::StrSlice => "str",
             Ty::CellU64 => "std::cell::Cell<u64>",
             Ty::RcVec => "std::rc::Rc<Vec<u64>>",
+            Ty::VecStrRef => "Vec<&str>",
         }
     }
     /// type of the variable outside the macro
@@ -140,6 +147,7 @@ impl Ty {
             Ty::StrSlice => format!("format!(\"s{i}-{{:04}}\", k0 % 1000)"),
             Ty::CellU64 => format!("std::cell::Cell::new(k0.wrapping_mul({p}) % 1009)"),
             Ty::RcVec => format!("std::rc::Rc::new(vec![k0 % 19, {p}, {i}])"),
+            Ty::VecStrRef => format!("vec![[\"ab\", \"c\", \"defg\"][(k0 % 3) as usize], \"p{p}\", \"i{i}\"]"),
         }
     }
     /// `u64` digest of the capture; `n` names a `&T` / `&mut T` inside the body. Growing (mutable)
@@ -158,6 +166,8 @@ impl Ty {
             Ty::StrSlice => format!("{n}.bytes().fold({n}.len() as u64, |acc, x| acc.wrapping_mul(131).wrapping_add(x as u64))"),
             Ty::CellU64 => format!("{n}.get()"),
             Ty::RcVec => format!("{n}.iter().fold(std::rc::Rc::strong_count({n}) as u64, |acc, x| acc.wrapping_mul(131).wrapping_add(*x))"),
+            Ty::VecStrRef if mutable => format!("({n}.last().map(|x| x.len()).unwrap_or(0) as u64).wrapping_mul(131).wrapping_add({n}.len() as u64)"),
+            Ty::VecStrRef => format!("{n}.iter().fold({n}.len() as u64, |acc, x| acc.wrapping_mul(131).wrapping_add(x.len() as u64 + x.as_bytes()[0] as u64))"),
         }
     }
     /// statement(s) mutating the capture from `h`; `n` names a `&mut T` inside the body
@@ -172,6 +182,7 @@ impl Ty {
             Ty::StrSlice => format!("if h.wrapping_mul({p}) % 2 == 0 {{ {n}.make_ascii_uppercase(); }} else {{ {n}.make_ascii_lowercase(); }}"),
             Ty::CellU64 => format!("{n}.set({n}.get().wrapping_mul({p}).wrapping_add(h));"),
             Ty::RcVec => format!("if let Some(v) = std::rc::Rc::get_mut({n}) {{ v.push(h.wrapping_mul({p}) % 1000); }}"),
+            Ty::VecStrRef => format!("{n}.push([\"x\", \"yy\", \"zzz\"][(h.wrapping_mul({p}) % 3) as usize]);"),
         }
     }
 }
@@ -308,7 +319,7 @@ impl Shape {
                 let ty = if is_trace {
                     Ty::VecU64
                 } else if self.variant == Variant::Types {
-                    TY_ROT[(i + code) % 9]
+                    TY_ROT[(i + code) % 10]
                 } else if kind == Cap::R {
                     Ty::U64
                 } else {
@@ -521,6 +532,7 @@ impl Shape {
                     l.push("}".into());
                 }
             }
+            Variant::RetRef => unreachable!("retref shapes have their own source"),
             Variant::Two => {
                 let ca = call(&list("a0 - 1".into(), 0, None));
                 let cb = call(&list("a0 - 2".into(), 1, None));
@@ -579,6 +591,9 @@ impl Shape {
     pub fn source(&self, fn_name: &str) -> String {
         if self.variant == Variant::Refs {
             return self.source_refs(fn_name);
+        }
+        if self.variant == Variant::RetRef {
+            return self.source_retref(fn_name);
         }
         let id = self.id();
         let caps = self.cap_infos();
@@ -860,6 +875,85 @@ impl Shape {
     }
 }
 
+impl Shape {
+    /// `retref` variant: one shared capture `s0: &Vec<u64>`, return type `&u64` borrowed from it
+    fn source_retref(&self, fn_name: &str) -> String {
+        let id = self.id();
+        let k = self.nargs;
+        let tc = self.tc;
+        let arg_list: Vec<String> = (0..k).map(|i| format!("a{}: u64", i)).collect();
+        let body = |call: &dyn Fn(&[String]) -> String| -> Vec<String> {
+            let mut l: Vec<String> = vec!["crate::support::tick();".to_string()];
+            let vs: Vec<String> = (0..k).map(|i| format!("a{i}")).collect();
+            l.push(format!("crate::support::trace(&[{}]);", vs.join(", ")));
+            l.push("let mut h: u64 = a0;".to_string());
+            for v in vs.iter().skip(1) {
+                l.push(format!("h = h.wrapping_mul(3).wrapping_add(*&{v});"));
+            }
+            l.push("let idx = (h % s0.len() as u64) as usize;".to_string());
+            let mut args: Vec<String> = vec!["a0 - 1".to_string()];
+            for i in 1..k {
+                args.push(format!("a{i}.wrapping_mul(3).wrapping_add(h) % 1000"));
+            }
+            let c = call(&args);
+            l.push("if a0 == 0 {".into());
+            l.push("    &s0[idx]".into());
+            l.push("} else {".into());
+            l.push(format!("    let r = {c};"));
+            l.push("    if *r % 2 == 0 { r } else { &s0[idx] }".into());
+            l.push("}".into());
+            l
+        };
+        let macro_call = move |a: &[String]| -> String {
+            if tc {
+                format!("rec!({},)", a.join(", "))
+            } else {
+                format!("rec!({})", a.join(", "))
+            }
+        };
+        let twin_call = |a: &[String]| -> String { format!("twin({}, s0)", a.join(", ")) };
+        let inputs: Vec<String> = (0..k).map(|i| format!("inp[{i}]")).collect();
+        let mut s = String::new();
+        let w = &mut s;
+        writeln!(w, "// BEGIN SHAPE {} {}", id, self.describe()).unwrap();
+        writeln!(w, "pub fn {fn_name}(inp: [u64; 4], k0: u64) -> Result<u64, String> {{").unwrap();
+        writeln!(w, "    let s0: Vec<u64> = (0..(k0 % 5 + 3)).map(|x| x * 11 + k0 % 7).collect();").unwrap();
+        writeln!(w, "    let _ = crate::support::trace_take();").unwrap();
+        writeln!(w, "    // MACRO BEGIN").unwrap();
+        writeln!(w, "    let got_ret: u64 = {{").unwrap();
+        writeln!(w, "        let mut lam = rec_lambda!(rec, |s0: &Vec<u64>| {{").unwrap();
+        writeln!(w, "            |{}| -> &u64 {{", arg_list.join(", ")).unwrap();
+        for line in body(&macro_call) {
+            writeln!(w, "                {line}").unwrap();
+        }
+        writeln!(w, "            }}").unwrap();
+        writeln!(w, "        }});").unwrap();
+        writeln!(w, "        let r: &u64 = lam({});", inputs.join(", ")).unwrap();
+        writeln!(w, "        let r2: &u64 = lam({});", inputs.iter().map(|x| format!("{x} / 2")).collect::<Vec<_>>().join(", ")).unwrap();
+        writeln!(w, "        r.wrapping_mul(1009).wrapping_add(*r2)").unwrap();
+        writeln!(w, "    }};").unwrap();
+        writeln!(w, "    // MACRO END").unwrap();
+        writeln!(w, "    let got_trace = crate::support::trace_take();").unwrap();
+        writeln!(w, "    fn twin({}, s0: &Vec<u64>) -> &u64 {{", arg_list.join(", ")).unwrap();
+        for line in body(&twin_call) {
+            writeln!(w, "        {line}").unwrap();
+        }
+        writeln!(w, "    }}").unwrap();
+        writeln!(w, "    let want_ret: u64 = {{").unwrap();
+        writeln!(w, "        let r: &u64 = twin({}, &s0);", inputs.join(", ")).unwrap();
+        writeln!(w, "        let r2: &u64 = twin({}, &s0);", inputs.iter().map(|x| format!("{x} / 2")).collect::<Vec<_>>().join(", ")).unwrap();
+        writeln!(w, "        r.wrapping_mul(1009).wrapping_add(*r2)").unwrap();
+        writeln!(w, "    }};").unwrap();
+        writeln!(w, "    let want_trace = crate::support::trace_take();").unwrap();
+        writeln!(w, "    crate::support::cmp(\"value behind the returned reference\", &got_ret, &want_ret)?;").unwrap();
+        writeln!(w, "    crate::support::cmp(\"thread-local trace of (call index, arguments)\", &got_trace, &want_trace)?;").unwrap();
+        writeln!(w, "    Ok((got_trace.len() / {}) as u64)", k).unwrap();
+        writeln!(w, "}}").unwrap();
+        writeln!(w, "// END SHAPE {}", id).unwrap();
+        s
+    }
+}
+
 pub fn all_patterns() -> Vec<Vec<Cap>> {
     let mut v = vec![];
     for len in 0..=4usize {
@@ -886,6 +980,9 @@ pub fn all_shapes(variants: &[Variant]) -> Vec<Shape> {
                         }
                         if variant == Variant::Churn && (caps.len() > 1 || nargs > 2 || tc) {
                             continue; // sub-grid: the number of calls is what is varied here
+                        }
+                        if variant == Variant::RetRef && (caps != vec![Cap::R] || !ret) {
+                            continue; // one shared capture to borrow from (elision needs exactly one reference parameter)
                         }
                         v.push(Shape { variant, caps: caps.clone(), nargs, ret, tc });
                     }
